@@ -364,3 +364,67 @@ class sptenmat_to_sptensor(Contract):
                 0 <= T.tz(cd.fn(dc(i, j))), T.tz(cd.fn(dc(i, j))) < Nn)), [[rf(i), rf(j)]]), "lemma"
         yield "rows-pairwise-distinct(witness)", T.ForAll(
             [i, j], z3.Implies(z3.And(0 <= i, i < j, j < n), z3.And(0 <= col(i, j), col(i, j) < Nn, T.tz(subs.fn(i, col(i, j))) != T.tz(subs.fn(j, col(i, j))))), [[rf(i), rf(j)]])
+
+
+T_ = "pyttb.tenmat.tenmat."
+
+
+@register
+class tenmat_init(Contract):
+    qual = T_ + "__init__"
+    props = ("C01", "C19", "C05")
+    doc = (
+        "tenmat(data, rdims, cdims, tshape) for a real matrix data: the number of entries of data must equal prod(tshape) and "
+        "prod(tshape[rdims]) * prod(tshape[cdims]), and rdims ++ cdims must be a permutation of the modes (else raises); the "
+        "object then holds an entry-wise copy of data and copies of rdims / cdims, and tshape."
+    )
+    inline = ("pyttb.pyttb_utils.gather_wrap_dims", "pyttb.pyttb_utils.parse_shape", "pyttb.pyttb_utils.tt_sizecheck", "pyttb.tenmat.tenmat.order",
+              "pyttb.tenmat.tenmat._matches_order", "pyttb.pyttb_utils.to_memory_order")
+
+    def setup(self, S, case):
+        Nn = S.int("N", 1)
+        tshape = S.vector("tshape", Nn, "int", kind="tuple")
+        S.assume(S.forall(0, Nn, lambda q: tshape.fn(q) >= 1, pats=lambda q: [tshape.fn(q)]))
+        r, c = S.int("rows", 1), S.int("cols", 1)
+        data = S.matrix("data", r, c, "real")
+        rdims = S.vector("rdims", S.nat("Lr"), "int")
+        cdims = S.vector("cdims", S.nat("Lc"), "int")
+        for ax in N.mixed_radix_axioms():
+            S.ctx.assume(ax)
+        S.ctx.row_hints = True
+        S.ctx.index_errors_raise = True
+        return dict(__self__=Rec("tenmat", {}), data=data, rdims=rdims, cdims=cdims, tshape=tshape)
+
+    @staticmethod
+    def _rows(S, a):
+        ts, rd, cd, data = a["tshape"], a["rdims"], a["cdims"], a["data"]
+        rrow = N.spec_row(S.ctx, rd.shape[0], lambda x: T.tz(ts.fn(rd.fn(x))))
+        crow = N.spec_row(S.ctx, cd.shape[0], lambda x: T.tz(ts.fn(cd.fn(x))))
+        return rrow, crow, N.seq_as_row(S.ctx, ts), N.seq_as_row(S.ctx, (data.shape[0], data.shape[1]))
+
+    def raises_when(self, S, a):
+        Nn = a["tshape"].shape[0]
+        yield "dims-are-not-a-partition-of-the-modes", S.Not(_is_partition(S, a["rdims"], a["cdims"], Nn))
+        rrow, crow, srow, drow = self._rows(S, a)
+        yield "entry-count-differs-from-prod(tshape)", N.PRODR(drow) != N.PRODR(srow)
+
+    def may_raise(self, S, a):
+        # modes outside -N..N-1 make NumPy's indexing raise before the partition check; a wrong product of the two
+        # mode-size products is rejected too (stated as permitted: it involves the product of two symbolic products)
+        yield "anything-the-must-raise-clauses-name-or-a-size-product-mismatch", True
+
+    def ensures(self, S, a, ret):
+        me = a["__self__"]
+        f = me.fields
+        yield "fields-set", z3.BoolVal(all(x in f for x in ("data", "rindices", "cindices", "tshape")))
+        data, rd, cd = a["data"], a["rdims"], a["cdims"]
+        q, i, j = z3.Int("tm!q"), z3.Int("tm!i"), z3.Int("tm!j")
+        D = f["data"]
+        yield "data-copied", S.And(D.ndim == 2, S.eq(D.shape[0], data.shape[0]), S.eq(D.shape[1], data.shape[1]), T.ForAll(
+            [i, j], z3.Implies(z3.And(0 <= i, T.tz(i < data.shape[0]), 0 <= j, T.tz(j < data.shape[1])), T.tz(T.as_real(D.fn(i, j))) == T.tz(data.fn(i, j)))))
+        yield "rdims-kept", S.And(S.eq(f["rindices"].shape[0], rd.shape[0]), T.ForAll([q], z3.Implies(z3.And(0 <= q, T.tz(q < rd.shape[0])), T.tz(f["rindices"].fn(q)) == T.tz(rd.fn(q)))))
+        yield "cdims-kept", S.And(S.eq(f["cindices"].shape[0], cd.shape[0]), T.ForAll([q], z3.Implies(z3.And(0 <= q, T.tz(q < cd.shape[0])), T.tz(f["cindices"].fn(q)) == T.tz(cd.fn(q)))))
+        # the size checks of the constructor, as facts about every accepted call
+        rrow, crow, srow, drow = self._rows(S, a)
+        yield "accepted-only-if-entry-count-equals-prod(tshape)", N.PRODR(drow) == N.PRODR(srow)
+        yield "accepted-only-if-entry-count-equals-row-size-times-column-size", N.PRODR(rrow) * N.PRODR(crow) == N.PRODR(drow)
